@@ -575,7 +575,7 @@ def rule_key_normalisation(rep: Report, repo: Repo):
     R = "E2.keys"
     loc = lambda n: repo.loc("block_diagonalization", n)
     f = repo.find("block_diagonalization::_list_to_dict", R)
-    if [a_.arg for a_ in f.args.args] != ["operator"]:
+    if not f.args.args or f.args.args[0].arg != "operator":
         raise AnalysisError(R, "_list_to_dict signature")
     # pairing construct: (target, iter, key expr, value expr, node)
     pairings = []
@@ -596,8 +596,22 @@ def rule_key_normalisation(rep: Report, repo: Repo):
     if len(it.args) == 2 and isinstance(tgt, ast.Tuple) and len(tgt.elts) == 2:
         a_, b_ = (resolved(x, env) for x in it.args)
         tn = [norm(e) for e in tgt.elts]
-        eye = isinstance(a_, ast.Call) and call_name(a_) in ("np.eye", "np.identity") and a_.args and norm(a_.args[0]) == "len(operator) - 1"
-        ok = eye and norm(b_) == "operator[1:]" and norm(key) == f"tuple({tn[0]})" and norm(val) == tn[1]
+        from .sem import canon as _canon_k
+        n_txt = norm(_canon_k(a_.args[0])) if isinstance(a_, ast.Call) and a_.args else ""
+        eye = isinstance(a_, ast.Call) and call_name(a_) in ("np.eye", "np.identity") and n_txt in ("len(operator) - 1", "len(operator[1:])")
+        whole = norm(b_) in ("operator[1:]",)
+        if not whole and isinstance(b_, (ast.ListComp, ast.GeneratorExp)) and any(g_.ifs for g_ in b_.generators) \
+                and any(norm(g_.iter) == "operator[1:]" for g_ in b_.generators):
+            # understood and wrong: a FILTERED list of the perturbations is paired position by position with the unit orders, so every
+            # perturbation after a dropped one moves to the previous parameter
+            rep.fail(R, "_list_to_dict pairs the unit order tuples with a filtered list of the perturbations",
+                     f"`{norm(b_)[:90]}`: dropping an entry shifts all later perturbations to earlier parameters", loc(node))
+            whole = None
+        elif not whole:
+            raise AnalysisError(R, f"_list_to_dict: the perturbations zipped with the unit orders are `{norm(b_)[:70]}`, not operator[1:]")
+        if whole is None:
+            return
+        ok = eye and whole and norm(key) == f"tuple({tn[0]})" and norm(val) == tn[1]
     rep.check(ok, R, "_list_to_dict maps the k-th perturbation to the k-th unit order tuple",
               f"pairs `{norm(tgt)}` from `{rtext(it, env)[:90]}`; key `{norm(key)}` -> `{norm(val)}`", loc(node))
     rep.check(N == "len(operator) - 1", R, "_list_to_dict: one parameter per listed perturbation", N, loc(f))
